@@ -3,6 +3,8 @@ import Capnp.Model.Read
 import Capnp.Spec.Encoding
 import Capnp.Spec.Value
 import Capnp.Spec.Canon
+import Capnp.Model.CopyStruct
+import Capnp.Model.EqualCap
 /-! ops of domain `read`: canonical traversal of a message through the model's accessors -/
 namespace Driver.Read
 open Capnp.Prelude Capnp.Gen Capnp.Model.Read
@@ -140,6 +142,15 @@ def runBuild : List String → String
   | ["bigstruct", _, _, _, _, d] =>   -- a struct pointer encodes at most 0xffff data words (Props.C05.isValid_spec)
     (match d.toNat? with | some n => if n ≤ 524280 then "ok" else "refused" | none => "bad-op")
   | "copy" :: _ => "ok"          -- C16: the copy equals the source and is independent of it
+  | ["copydata", src, dw, n, idx, old] =>   -- C16: `copyStruct`'s data path on the bytes of a list and of the object behind it (Model.CopyStruct)
+    let hexNats (s : String) : Option (List Nat) := if s = "-" then some [] else (parseHex s).map (fun l => l.map UInt8.toNat)
+    match hexNats src, dw.toNat?, n.toNat?, idx.toNat?, hexNats old with
+    | some s, some dw, some n, some idx, some o =>
+      let padded := (n * dw + 7) / 8 * 8
+      let mem := o ++ List.replicate (padded - n * dw) 0 ++ List.replicate 8 0xcc
+      let r := Capnp.Model.CopyStruct.copyInto mem (idx * dw) dw s
+      toHex ((r.take (n * dw) ++ r.drop padded).map UInt8.ofNat)
+    | _, _, _, _, _ => "bad-op"
   | ["spec", shadow, segs] =>    -- C05: the independent decoder reconstructs exactly the written tree
     match parseSegs segs with
     | some sg => let t := Capnp.Spec.Encoding.decodeTree sg; if t = shadow then "ok" else "diff " ++ t
@@ -197,6 +208,15 @@ def run : List String → String
       | some (.struct _ (p0 :: p1 :: _)) => if Capnp.Spec.Value.eq 200 p0 p1 then "true" else "false"
       | _ => "invalid"
     | none => "bad-op"
+  | ["equalcap", segs, ntab, mask, m] =>   -- `Equal` on two capability pointers of one message (Model.EqualCap.eqSameMsg)
+    match parseSegs segs, ntab.toNat?, mask.toNat?, m.toNat? with
+    | some sg, some ntab, some mask, some m =>
+      match Capnp.Spec.Value.decodeRoot sg with
+      | some (.struct _ (.struct _ (.cap i :: _) :: .struct _ (.cap j :: _) :: _)) =>
+        let tab : Nat → Option Nat := fun k => if mask / 2 ^ k % 2 = 1 then none else some (k % m)
+        if Capnp.Model.EqualCap.eqSameMsg ntab tab i j then "true" else "false"
+      | _ => "invalid"
+    | _, _, _, _ => "bad-op"
   | ["equalcopy", segs, _] =>    -- Props.C17: a value equals its deep copy and its zero-extension (eq_refl, the relayout theorems)
     match parseSegs segs with
     | some sg => match Capnp.Spec.Value.decodeRoot sg with | some _ => "true" | none => "invalid"
